@@ -14,7 +14,9 @@ CHECKS = {
         "executed-step-history model",
         text="Seeded search over step-name programs (all 1111 kind sequences of length <= 3 as a floor, then random DFA "
         "walks, single edits, uniform sequences, one-bad-parameter walks, suffix-only and multi-dot names) and "
-        "histories of check/run operations on one machine; verdicts are compared with the documented automaton, the "
+        "histories of check/run operations on one machine (repeats, another legal ordering or a superset pipeline "
+        "checked first or in between, the checked configuration run on a brand-new machine); verdicts are compared with "
+        "the documented automaton, the "
         "executed callbacks and plugin-method calls (order, count, side) with a reference history model, machine "
         "state/transitions after every operation, and repeats must be identical. Sampling, not proof.",
         note="trusts: transitions' dispatch by callback name (probes are instance attributes), identity stubs for the "
@@ -39,7 +41,8 @@ CHECKS = {
         text="Histories of 2..12 configuration checks in one process (step classes visited in seeded order, input "
         "sections alternating disparity forms) compared operation by operation with a table of the documented "
         "defaults and domains; user dictionaries must be left untouched, re-checking must be idempotent, and the "
-        "verdict must not depend on what was checked before.",
+        "verdict must not depend on what was checked before (each operation is also executed alone in a fork of the "
+        "pristine process); pipeline checks sharing one machine must leave earlier returned configurations intact.",
         note="the model is restricted to the defaults/domains the statement names; values where docs, statement and "
         "code disagree are not offered",
         ref="§5 C05",
@@ -83,9 +86,10 @@ CHECKS = {
         technique=TECH + "seeded programs with any number/order of confidence steps; differential runs with/without "
         "each step; bracketed definition oracles",
         text="Programs with 0..5 confidence steps in any order and with suffixes: each event must append exactly its "
-        "own bands and leave earlier bands and the cost volume bit-identical; the program with and without its "
+        "own bands (suffix = everything after the step kind) and leave earlier bands and the cost volume bit-identical; "
+        "the program with and without its "
         "confidence steps must give bit-identical disparity map and mask; band values are checked against float64 "
-        "definitions with epsilon-bracketed thresholds.",
+        "definitions with epsilon-bracketed thresholds (for max-type measures the curve is mirrored: best = largest cost).",
         note="precondition (>= 2 distinct finite costs) enforced on the actual volume; tolerance/bracketing as in "
         "DESIGN §3.3",
         ref="§5 C12",
@@ -106,7 +110,8 @@ CHECKS = {
         technique=TECH + "seeded fault sequences on datasets / input sections (well-formedness model) and a complete "
         "single-fault sweep over the I/O seam of each sampled CLI run",
         text="Fault operators (breaking / preserving) applied in seeded sequences to well-formed dataset pairs and "
-        "input sections, verdict of check_datasets / check_input_section compared with a well-formedness model in "
+        "input sections (incl. fault-then-repair at the same path), verdict of check_datasets / check_input_section "
+        "compared with a well-formedness model in "
         "histories; for sampled CLI scenarios an OSError is injected at every read-open index k in turn: the run must "
         "refuse before any matching-cost event.",
         note="only faults whose classification is unambiguous under the statement are generated; I/O faults at call "
@@ -120,7 +125,8 @@ CHECKS = {
         text="(a) every numba prange kernel's Python source is rewritten so each outer iteration is a generator "
         "yielding after every statement and a seeded scheduler interleaves 2-4 simulated threads: outputs must be "
         "bit-identical to the sequential schedule; (b) histories of check/run/abort operations on several machines "
-        "and step classes: every successful run's digest must equal the fresh-machine reference and caller datasets "
+        "and step classes (near-twin and band-twin pipelines, multiscale, aborted runs, rejected checks): every "
+        "successful run's digest must equal the fresh-machine reference and caller datasets "
         "stay untouched; (c) real builds with 1/2/16 threads and parallel off, sampled.",
         note="memory model: sequential consistency at statement granularity plus split a[i] op= v; real numba thread "
         "interleavings are sampled, not steered",
